@@ -13,7 +13,16 @@ Cascade with a stabilization, development and hotfix branch, queues on / off; th
 on the tip of the branch (= a deletion that was interrupted between the push of the tag and the removal of the
 branch) / on another commit; then the real `delete_branch` job runs (with the same interleavings and refusals as
 every job) and its ordered remote operations are compared with `C08 opst <none|tip|other>` — full job / deletion
-completed without a second tag / nothing at all —, the oracle demanding a tag ON THE DELETED TIP.
+completed without a second tag / nothing at all —, the oracle demanding a tag ON THE DELETED TIP. Besides "the server
+refuses this push" (the command fails as a whole), every single ref of a push with explicit refspecs is refused by a
+git `update` hook in the bare remote (`refuse-ref:<j>`): the server takes the other refs of a non-atomic push, so a
+job that publishes the tag and deletes the branch in one push loses the branch without a tag.
+
+Scripted block (every run, `reset_cases`): `@robot reset` / `@robot force_reset` on a pull request that has integration
+branches x queues on / off x {no manual work, a commit made by hand on an integration branch}; the reset job gets every
+third-party action before its `git push --all --atomic --prune` like every job (the colleague's commit on the source
+branch must still be there afterwards); a case whose job does not end in that push (or, for a plain reset over manual
+work, in LossyResetWarning without a push) is a disagreement, so the block cannot become vacuous.
 
 Fault block (every run, harness/c08_faults.py): short histories in which a first job fills the mirror cache, a
 colleague then creates a branch and / or pushes to a branch that is not Bert-E's, and a job follows that ends in a
@@ -132,6 +141,57 @@ def push_code(command):
     return 'push:' + ','.join(H.ref_code(n) for n in names)
 
 
+def push_refs(command):
+    """the remote refs that a `git push` with explicit refspecs asks the server to update, one candidate set per
+    refspec, in the order of the command line ([] for `--all` / `--tags` / `--mirror`). A bare name `x` is
+    `refs/tags/x` or `refs/heads/x`, whichever the clone has (git refuses an ambiguous name): both are candidates."""
+    argv = push_argv(command)[2:]
+    if any(a in ('--all', '--tags', '--mirror') for a in argv):
+        return []
+    out = []
+    for n in [a for a in argv if not a.startswith('-') and a != 'origin']:
+        n = n.lstrip('+')
+        if ':' in n:
+            n = n.split(':', 1)[1]
+            out.append([n] if n.startswith('refs/') else ['refs/heads/' + n])
+        elif n.startswith('refs/'):
+            out.append([n])
+        else:
+            out.append(['refs/tags/' + n, 'refs/heads/' + n])
+    return out
+
+
+REFUSE_HOOK = """#!/bin/sh
+# installed by harness/c08.py: the server refuses the refs listed (one per line) in the file next to this hook
+f="%s"
+if [ -f "$f" ] && grep -qxF -- "$1" "$f"; then
+  echo "verif: update of $1 refused" >&2
+  exit 1
+fi
+exit 0
+"""
+
+
+def install_refusal(w, refnames):
+    """a git `update` hook in the bare remote: exactly the refs `refnames` are refused (per ref: the other refs of a
+    non-atomic push are accepted, an atomic push fails as a whole - git's own behaviour)"""
+    import stat
+    listing = os.path.join(w.bare, 'verif-c08-refused')
+    with open(listing, 'w') as fh:
+        fh.write(''.join(r + '\n' for r in refnames))
+    hook = os.path.join(w.bare, 'hooks', 'update')
+    os.makedirs(os.path.dirname(hook), exist_ok=True)
+    with open(hook, 'w') as fh:
+        fh.write(REFUSE_HOOK % listing)
+    os.chmod(hook, os.stat(hook).st_mode | stat.S_IXUSR | stat.S_IXGRP | stat.S_IXOTH)
+
+
+def remove_refusal(w):
+    for fn in (os.path.join(w.bare, 'verif-c08-refused'), os.path.join(w.bare, 'hooks', 'update')):
+        if os.path.exists(fn):
+            os.remove(fn)
+
+
 # ----------------------------------------------------------------------------- oracles (on the real remote)
 
 def is_foreign(name):
@@ -219,6 +279,8 @@ def oracle_c08(run, ev, kind, info, before, after, host_before, host_after):
                       {n: s for n, s in st['before'].items() if is_foreign(n)},
                       'uninterrupted %s' % _evname(ev), is_delete_job=is_delete_job(ev))
     fails += st['child_failures']
+    # what happened to the refs first, the forcing token of the command line (how it happened) after it
+    fails.sort(key=lambda f: f['key'] == 'forced-push')
     return fails
 
 
@@ -280,6 +342,14 @@ def _third_party(run, action, pr_src, n_label):
         if action == 'refuse':            # not a third party: the server refuses this push (and its retries)
             inj.update(refuse=inj['command'], applicable=True, refs_after_action=refs)
             return
+        if action.startswith('refuse-ref:'):   # the server refuses ONE ref of this push (update hook), for good
+            cands = push_refs(inj['command'])
+            j = int(action.split(':')[1])
+            if j < len(cands):
+                install_refusal(w, cands[j])
+                inj.update(refused=cands[j], applicable=True)
+            inj['refs_after_action'] = refs
+            return
         if action == 'create':
             name = 'feature/thirdparty-%s' % n_label
             dests = [n for n in w.cfg.dests if n in refs] or sorted(refs)
@@ -338,6 +408,8 @@ def _child_sched(run, ev, orig, k, action, before, tags_before, label):
         status = 'raised:' + type(e).__name__
     HOOK['inject'] = None
     log = HOOK['log']
+    if inj.get('refused'):
+        remove_refusal(w)
     if not inj['done'] or not inj.get('applicable'):
         return {'reached': inj['done'], 'applicable': False}
     # pushes after the injection, up to the next clone (= the rest of this job)
@@ -427,9 +499,13 @@ def _execute(run, ev):
     try:
         dry = _in_child(lambda: _child_plain(run, ev, _ORIG_EXECUTE))
         _restore(w, snap)
-        npush = sum(1 for e in dry['log'] if e[0] == 'push')
-        for k in range(npush):
-            for action in ACTIONS + EXTRA_ACTIONS + (('refuse',) if (HOOK.get('refuse_all') or is_delete_job(ev)) else ()):
+        pushes = [e[1] for e in dry['log'] if e[0] == 'push']
+        refusals = HOOK.get('refuse_all') or is_delete_job(ev)
+        for k in range(len(pushes)):
+            # refusals: the whole push, and every single ref of a push with explicit refspecs (the server takes the
+            # other refs of a non-atomic push)
+            for action in ACTIONS + EXTRA_ACTIONS + ((('refuse',) + tuple(
+                    'refuse-ref:%d' % j for j in range(len(push_refs(pushes[k]))))) if refusals else ()):
                 if budget is not None and budget[0] <= 0:
                     break
                 label = '%d-%d' % (len(HOOK['sched']), k)
@@ -519,7 +595,7 @@ def compare_with_model(model, trace, jobs):
             if not out.get('applicable'):
                 continue
             sc = out['sched']
-            if out['action'] == 'refuse':
+            if out['action'].startswith('refuse'):
                 continue
             maction = {'rewind': 'point'}.get(out['action'], out['action'])
             if out['action'] in ('create', 'rewind'):
@@ -654,6 +730,63 @@ def _work_scripted(args):
     return o
 
 
+RESET_DESTS = ['development/4.3', 'development/5.1', 'development/10.0']
+RESET_COMMANDS = ('reset', 'force_reset')
+
+
+def reset_cases():
+    """(label, config, events, the last job must end in its pruning push): `@robot reset` / `@robot force_reset` on a
+    pull request that HAS integration branches x queues on / off x {nothing, a commit made by hand on an integration
+    branch (plain `reset` then refuses with LossyResetWarning, `force_reset` goes on)} - a second pull request gives
+    the repository another feature branch. As for every job: every third-party action before every push, so the
+    colleague's push to the source branch lands between the clone of the reset job and its
+    `git push --all --atomic --prune`."""
+    from .system import Config
+    cases = []
+    for use_queue in (False, True):
+        for command in RESET_COMMANDS:
+            for manual in (False, True):
+                cfg = Config(RESET_DESTS, [], use_queue=use_queue, skip_queue=False, no_octopus=False,
+                             create_prs=False, create_branches=True, options=['bypass_jira_check'])
+                evs = [{'op': 'open', 'pr': 1, 'dst': 'development/4.3', 'src': 'bugfix/TEST-0001'},
+                       {'op': 'open', 'pr': 2, 'dst': 'development/5.1', 'src': 'feature/TEST-0002'},
+                       {'op': 'progress', 'pr': 1}]
+                if manual:
+                    evs.append({'op': 'w_commit', 'pr': 1, 'which': 0})
+                evs += [{'op': 'comment', 'pr': 1, 'user': H.CONTRIB, 'text': '@robot ' + command},
+                        {'op': 'eval_pr', 'pr': 1, 'scripted': True}]
+                cases.append(('%s:%s:%s' % ('queue' if use_queue else 'noqueue', command, 'manual' if manual else 'plain'),
+                              cfg, evs, command == 'force_reset' or not manual))
+    return cases
+
+
+def _work_reset(args):
+    n, use_model, base = args
+    label, cfg, evs, pushes = reset_cases()[n]
+    try:
+        out, jobs, sched, na, nb, dis = run_one(cfg, evs, use_model, base, refuse_all=False)
+    except Exception:
+        return {'i': 'scripted-reset:' + label, 'cfg': cfg.as_dict(), 'events': evs, 'error': traceback.format_exc()[-3000:]}
+    o = summarize('scripted-reset:' + label, 'scripted', cfg, evs, out, jobs, sched, na, nb, dis)
+    st = [j for j in jobs if j['ev'] is evs[-1]]
+    status = ([r['status'] for r in out['trace'] if r['event'] is evs[-1]] or [None])[0]
+    real_ops = [push_code(e[1]) for e in st[0]['log'] if e[0] == 'push'] if st else None
+    placed = sorted({s['action'] for s in st[0]['sched'] if s.get('applicable')}) if st else []
+    o['stats']['scripted-reset:%s:%s:%s' % (label, status, ','.join(real_ops or []) or 'no-push')] = 1
+    o['scripted_reset'] = {'case': label, 'status': status, 'ops': real_ops, 'third_party_before_the_push': placed}
+    # the block must not become vacuous: the job the case is about ran, ended in its pruning push (or refused, for a
+    # plain reset over manual work), and every third-party action was placed before that push
+    want = ['pushall:1'] if pushes else []
+    if real_ops != want or (pushes and not set(ACTIONS) <= set(placed)):
+        o['model_dis'].append({'input': {'case': label}, 'real': o['scripted_reset'],
+                               'model': {'ops': want, 'third_party_before_the_push': sorted(ACTIONS) if pushes else []},
+                               'why': 'scripted block: the %s job did not end as the case expects (one '
+                                      '`push --all --atomic --prune` after the removal of the integration branches, every '
+                                      'third-party action placed before it / LossyResetWarning without a push)'
+                                      % label.split(':')[1]})
+    return o
+
+
 def summarize(i, mode, cfg, evs, out, jobs, sched, na, nb, dis):
     stats = dict(out['stats'])
     for o in sched:
@@ -687,7 +820,11 @@ RULE = ('seeded histories of C01 (8 cascade templates x queue / queue+skip / no 
         '"the server refuses this push" for every push of delete_branch jobs and of the corpus (every push of every job in the '
         'thorough tier); plus the scripted block: delete_branch of a development / stabilization / hotfix branch x queues on / '
         'off x archive tag {absent, on the tip of the branch, on another commit}, plan compared '
-        'with the model (full job / deletion completed without a second tag / refused); oracles after every '
+        'with the model (full job / deletion completed without a second tag / refused), with the refusal of the whole '
+        'push AND of every single ref of the push (git update hook: the other refs of a non-atomic push are taken); plus the '
+        'scripted block: `reset` / `force_reset` on a pull request with integration branches x queues on / off x manual commit '
+        'on an integration branch or not (8 cases; the job must end in `push --all --atomic --prune`, every third-party action '
+        'placed before it; LossyResetWarning without a push for a plain reset over manual work); oracles after every '
         'job: destinations fast-forward only / deleted only by delete_branch with an archive tag on the tip; foreign refs as the '
         'third party left them; no forcing token in any `git push` argv; old destination tips reachable from branches and tags; '
         'distinct = (action, job status, next pushes) classes of interleavings + histories in which Bert-E pushed; '
@@ -733,6 +870,9 @@ def collect(res, outs):
         if o.get('scripted'):
             res.distinct.add(json.dumps(['scripted', o['scripted']['case']]))
             res.extra.setdefault('scripted_delete_branch', []).append(o['scripted'])
+        if o.get('scripted_reset'):
+            res.distinct.add(json.dumps(['scripted-reset', o['scripted_reset']['case']]))
+            res.extra.setdefault('scripted_reset', []).append(o['scripted_reset'])
         if len(res.samples) < 4 and o['n_sched']:
             res.samples.append({'cfg': o['cfg'], 'events': o['events'][:5], 'statuses': o['statuses'][:6],
                                 'interleavings': o['n_sched'], 'classes': o['sched_cases'][:4]})
@@ -771,9 +911,10 @@ def correspondence(ctx):
         faults = c08_faults.submit(pool, ctx, base)
         scripted = pool.map_async(_work_scripted, [(k, use_model, base) for k in range(len(scripted_cases()))],
                                   chunksize=1)
+        resets = pool.map_async(_work_reset, [(k, use_model, base) for k in range(len(reset_cases()))], chunksize=1)
         rnd = pool.map(_work, [(ctx.seed, i, use_model, base, None, ctx.tier != 'quick') for i in range(n)],
                        chunksize=1)
-        outs += scripted.get() + rnd
+        outs += scripted.get() + resets.get() + rnd
         fault_outs = faults.get()
     res = collect(res, outs)
     c08_faults.collect(res, fault_outs)
